@@ -905,6 +905,22 @@ func (w *World) checkProof(n string, s client.TxState) {
 	if *mp.BlockHeader.BlockHash() != b.hash {
 		w.fail("C04", "proof-header", "proof carries another block header", fmt.Sprintf("tx %s: proof header is not block %s", n, b.name))
 	}
+	// the notification goes to remote clients and into the stored tx state through the codec: the proof
+	// has to survive that trip (decode without error, verify to the same root)
+	var buf bytes.Buffer
+	u := &client.TxUpdate{ID: 1, TxID: id, State: s}
+	if err := u.Serialize(&buf); err != nil {
+		w.fail("C04", "proof-survives-codec", "confirmation cannot be serialised", fmt.Sprintf("tx %s: %v", n, err))
+		return
+	}
+	var u2 client.TxUpdate
+	if err := u2.Deserialize(&buf); err != nil {
+		w.fail("C04", "proof-survives-codec", "serialised confirmation cannot be decoded again", fmt.Sprintf("tx %s (index %d of %d txs): %v", n, idx, len(b.msg.Transactions), err))
+		return
+	}
+	if u2.State.MerkleProof == nil || verifyClientProof(id, u2.State.MerkleProof) != root {
+		w.fail("C04", "proof-survives-codec", "proof differs after a codec round trip", fmt.Sprintf("tx %s (index %d of %d txs)", n, idx, len(b.msg.Transactions)))
+	}
 }
 
 // verifyClientProof recomputes the root from a client.MerkleProof: at the layers listed in
